@@ -75,6 +75,10 @@ def _strategy():
     @st.composite
     def cases(draw):
         s = draw(G.schema_strategy())
+        if draw(st.integers(0, 5)) == 0:
+            # a family with multiple inheritance, so that re-parenting steps can insert bases at
+            # several positions of one base list
+            s = G.add_multi_base_family(s, draw)
         chain = [G.render(s)]
         edits = []
         for _ in range(draw(st.integers(1, 4))):
